@@ -48,7 +48,7 @@ Example tie_C11_filter_function_derivative :
 Proof. repeat split; reflexivity. Qed.
 
 Example tie_C11_infidelity_derivative :
-  einsum_gradient_infidelity_derivative = ["...o,...tho->...tho"]
+  einsum_gradient_infidelity_derivative = ["ajj->a"; "...o,...tho->...tho"]
   /\ Src.h_gradient_infidelity_derivative = Expected.h_gradient_infidelity_derivative
   /\ Src.h_util_parse_spectrum = Expected.h_util_parse_spectrum
   /\ Src.h_util_integrate = Expected.h_util_integrate
